@@ -542,7 +542,6 @@ def run_compile(ctx, mage, wrap, cp, layout, order, base):
 
 
 def run(ctx):
-def run(ctx):
     ctx.prove(["Props/C18.vo", "Run/eval_C18.vo"], extra_props=["Compose_C18_imports"])   # + the three transcriptions of setImports (Gen, Dupes, ImportTag) agree
     import extractlib; extractlib.fn_tie(ctx, ['TargetName/Gen', 'Functions.Less', 'Imports.Less'])   # pure functions translated from the current source, re-proved equal to the models' (tools/notes/Translator.md)
     ctx.trusted_base += [
@@ -640,11 +639,15 @@ def run(ctx):
     results = [r for r, _ in results]
     by = {}
     for (pi, kind, _), r in zip(tasks, results):
-        by.setdefault(pi, {})[kind] = r
+        if kind == "C":
+            by.setdefault(pi, {}).setdefault("C", []).append(r)
+        else:
+            by.setdefault(pi, {})[kind] = r
 
     items, item_proj = [], []
     build_failures = []
     hist_gens, hist_cov = 0, {}
+    cross_gens = 0
     n_oracle = 0
     cov = ctx.coverage
     tot_runs = tot_reps = 0
@@ -722,6 +725,24 @@ def run(ctx):
                            "file_sha1": file_sha, "in_process_sha1": main_shas[0]}, case=case, found_input=False)
         items.append(case_term(pr, ops[0], proj, fobs))
         item_proj.append((pr, proj, fobs))
+        # ---- oracle 5: two projects in one process (same module path and import paths, one imported package differs)
+        if "X" in r:
+            seq, fresh_var = r["X"]
+            cross_gens += sum(a["reps"] for a in seq) + fresh_var["reps"]
+            strip = lambda a: [json.dumps(dict(d["proj"], main_sha1=""), sort_keys=True) for d in a["distinct"]]
+            want = [[json.dumps(dict(proj, main_sha1=""), sort_keys=True)], strip(fresh_var), [json.dumps(dict(proj, main_sha1=""), sort_keys=True)]]
+            labels = ["the project", "the same module with %s changed (target added)" % pr["variant"]["path"], "the project again"]
+            for k in range(3):
+                if strip(seq[k]) != want[k] and n_oracle < 3:
+                    n_oracle += 1
+                    got = json.loads(strip(seq[k])[0]); exp = json.loads(want[k][0])
+                    ctx.violation({"kind": "oracle", "clause": "generation %d of a sequence in ONE process (%s) differs from what a fresh process generates from the same sources: "
+                                   "the result depends on what the process handled before" % (k + 1, labels[k]),
+                                   "in_sequence": {"imports": [(i["path"], i["name"], i["funcs"]) for i in got["imports"]], "err": got["err"]},
+                                   "fresh_process": {"imports": [(i["path"], i["name"], i["funcs"]) for i in exp["imports"]], "err": exp["err"]}}, case=case)
+                    break
+            items.append(case_term(pr, fresh_var, seq[1]["distinct"][0]["proj"], None))
+            item_proj.append((pr, seq[1]["distinct"][0]["proj"], {"cross_project": "variant generated second in one process"}))
         # ---- oracle 4: a history of edits of an imported package, magefiles byte-identical, one cache directory
         for st in r.get("H", []):
             hist_gens += (st["kept"] is not None) + (st["fresh"] is not None)
@@ -756,9 +777,56 @@ def run(ctx):
         if pi < 2:
             ctx.sample({"project": pr["name"], "competing": comp, "description": proj.get("desc", ""), "association": [(i["path"], i["unique"]) for i in proj["imports"]],
                         "aliases": proj["aliases"][:4], "default": proj["default"]})
+    # ---- oracle 6: the compiled output over layouts x creation orders x file systems
+    citems, citem_info = [], []
+    compile_runs = 0
+    raw_not_sorted = 0
+    for ci, cp in enumerate(compile_projects):
+        runs = by.get(("c", ci), {}).get("C", [])
+        ccase_ = {"compile_project": cp}
+        compile_runs += len(runs)
+        for x in runs:
+            if x["rc"] != 0 or x["argv"] is None:
+                build_failures.append("compile project %s (%s, %s, %s): mage -compile failed: %s" % (cp["name"], x["layout"], x["order"], x["base"], x["err"]))
+        runs = [x for x in runs if x["argv"] is not None]
+        for x in runs:
+            go_entries = [e for e in x["entries"] if e.endswith(".go")]
+            raw_not_sorted += go_entries != bsorted(go_entries)
+        def table(key, rs):
+            t = {}
+            for x in rs:
+                t.setdefault(json.dumps(x[key]), []).append("%s/%s/%s" % (x["layout"], x["order"], "shm" if x["base"].startswith("/dev/shm") else "tmp"))
+            return t
+        ta = table("argv", runs)
+        ti = table("init", runs)
+        if len(ta) > 1 and n_oracle < 4:
+            n_oracle += 1
+            ctx.violation({"kind": "oracle", "clause": "the argument list of the `go build` run by `mage -compile` differs between creation orders / file systems / layouts for the same magefiles",
+                           "argv_by_run": {k: v for k, v in ta.items()}}, case=ccase_)
+        elif len(ti) > 1 and n_oracle < 4:
+            n_oracle += 1
+            ctx.violation({"kind": "oracle", "clause": "the compiled binaries run the init functions of the magefiles in different orders", "init_by_run": ti}, case=ccase_)
+        for layout in LAYOUTS:
+            tb = table("sha1", [x for x in runs if x["layout"] == layout])
+            if len(tb) > 1 and n_oracle < 4:
+                n_oracle += 1
+                ctx.violation({"kind": "oracle", "clause": "`mage -compile` (GOFLAGS=-trimpath) output is not byte-identical across creation orders / file systems for layout %s" % layout,
+                               "sha1_by_run": tb}, case=ccase_)
+        for x in runs:
+            citems.append("{| cc_out := \"OUT\"; cc_ldflags := %s; cc_entries := %s; cc_magefiles := %s; cc_argv := %s |}" % (
+                coq_str(cp["ldflags"]), coq_list([coq_str(e) for e in x["entries"]]), coq_list([coq_str(f) for f in cp["files"]]),
+                coq_list([coq_str(a) for a in x["argv"]])))
+            citem_info.append((cp, x))
+    if citems:
+        cm = ctx.coq_eval_shards("ccases_C18", "From Mage Require Import Base.Strs Model.Gen Run.eval_C18.\nDefinition mismatches := cmismatches.\n", citems, per_shard=200)
+        if cm and not ctx.violations:
+            idx, body = cm[0]
+            cp, x = citem_info[idx]
+            ctx.violation({"kind": "model-vs-implementation", "correspondence": "Run/eval_C18.cmismatches (Model/Gen.compile_args)", "model_says": body[:600],
+                           "implementation": {"argv": x["argv"], "directory_listing": x["entries"], "layout": x["layout"]}}, case={"compile_project": cp}, found_input=False)
     ctx.log("oracle done")
     header = "From Mage Require Import Base.Strs Model.Gen Run.eval_C18.\n"
-    mism = ctx.coq_eval_shards("cases_C18", header, items, per_shard=max(1, (len(items) + NCPU - 1) // NCPU))
+    mism = ctx.coq_eval_shards("cases_C18", header, items, per_shard=max(1, (len(items) + NCPU - 1) // NCPU)) if items else []
     if mism and not ctx.violations:
         for idx, body in mism[:3]:
             pr, proj, fobs = item_proj[idx]
@@ -767,10 +835,14 @@ def run(ctx):
                           case={"project": pr, "runs_a": runs_a, "runs_b": runs_b, "reps": reps, "nprocs": nprocs}, found_input=False)
     if build_failures and not ctx.violations:
         raise BuildError("; ".join(build_failures)[:3000])
+    cov["cross_project_generations"] = cross_gens
+    cov["compile_runs"] = compile_runs
+    cov["compile_matrix"] = {"layouts": LAYOUTS, "creation_orders": ["listed", "reverse"], "file_systems": ["TMPDIR"] + (["/dev/shm"] if shm else []),
+                             "runs_whose_raw_directory_order_is_not_name_order": raw_not_sorted}
     cov["history_generations"] = hist_gens
     cov["history_states"] = hist_cov
     cov["histories"] = sum(1 for p in projects if p.get("history") and not p.get("error"))
-    cov["evaluations"] = tot_runs + tot_reps + hist_gens
+    cov["evaluations"] = tot_runs + tot_reps + hist_gens + cross_gens + compile_runs
     cov["distinct_nontrivial"] = nontriv
     cov["rule"] = ("one evaluation = one generation of the main file (a fresh `mage -keep -l` process, or one in-process parse.PrimaryPackage+sort(+render) repetition); "
                    "distinct = generated projects; non-trivial = at least one competing pair (equal package names among named or among root imports, one path with two aliases, or two non-empty package comments)")
